@@ -139,7 +139,17 @@ def run_case(ck, c, idx, coq_items):
             if c["k"] and int(np.argmax(got[r_i])) != int(torch.argmax(tout[src])):
                 ck.disagree("argmax differs", dict(case, row=row), signature=dict(sig, what="argmax"))
         ck.count("rows_compared", len(rows))
-    # --- clang as well in thorough
+    # --- the same batch in other containers / memory layouts
+    base = compiled.forward(net, rows_all)
+    for vname, res in compiled.forward_variants(net, rows_all).items():
+        ck.count("input_variant_batches")
+        if isinstance(res, Exception):
+            ck.disagree("forward raised on a valid Boolean batch given in another container / layout", dict(case, variant=vname),
+                        observed=repr(res)[:200], signature=dict(sig, what="variant-raises", variant=vname))
+        elif res != [[int(v) for v in r] for r in base]:
+            bad = next(i for i, (a, b) in enumerate(zip(res, base)) if a != [int(v) for v in b])
+            ck.disagree("result depends on the container / memory layout of the Boolean batch", dict(case, variant=vname, row=rows_all[bad]),
+                        expected=base[bad], observed=res[bad], signature=dict(sig, what="variant", variant=vname))
     return
 
 
